@@ -568,8 +568,10 @@ static void run_stream(FILE *in)
       if (thread_mode || chdir(real)) printf("driver-error chdir\n"); else printf("rc=0\n");
       free(p); free(real);
     } else if (!strcmp(c, "perms")) {
-      /* a requirement every file (0644) and directory (0755) of the harness meets: results as without it */
-      econf_requirePermissions(0400, 0100);
+      /* econf_requirePermissions: octal file and directory masks; without arguments a requirement every file (0644)
+         and directory (0755) of the harness meets */
+      if (nt >= 3) econf_requirePermissions((mode_t) strtoul(t[1], NULL, 8), (mode_t) strtoul(t[2], NULL, 8));
+      else econf_requirePermissions(0400, 0100);
       printf("rc=0\n");
     } else if (!strcmp(c, "confdirs")) {
       int n; char **l = dec_list(t[1], &n);
